@@ -243,6 +243,10 @@ class Evaluator:
             return r
         if kd == z3.Z3_OP_DIV:
             num, den = ch
+            if z3.eq(num, den):
+                v = self.ev(den)
+                if not v.contains_zero():
+                    return IV(1, 1, 0, True)          # x / x
             # x / (x + y + ...)  with every addend positive: in (0, 1]
             terms = self._flatten_add(den, [])
             if len(terms) > 1 and any(z3.eq(num, t) for t in terms):
